@@ -1,5 +1,6 @@
 # plan and claim for C14 (key serialisations); J and both are injected by driver/plan.py
 _CFG = ["avx2", "noaes", "purego"]
+_TIERS = ["avx2", "avx", "sse", "scalar", "aesni1", "noclmul", "noaes", "nobmi2", "noadx", "purego"]
 
 PLAN = dict(
     level="exploration",
@@ -9,7 +10,18 @@ PLAN = dict(
          "password-based ones); every container is decoded by every decoder that takes it, opened by an independent reference "
          "and, for negatives, offered with wrong passwords / wrong unwrapping keys / every single-byte substitution / "
          "out-of-range scalars; every encrypter / options / decoder-parameter object the API lets a caller keep is also "
-         "driven through histories of 2-3 calls with different keys and passwords; distinct = distinct class keys (configuration | container / algorithm choice / key shape / "
+         "driven through histories of 2-3 calls with different keys and passwords; every self-describing container (and the "
+         "same followed by trailing octets) is also handed to every decoder of the library (refused or the same key); "
+         "c14.alias: every decoder of every container and key kind is run inside a caller history - container (and password) "
+         "loaded into caller-owned buffers with dirty spare capacity, decoded twice (one key left untouched until the end), "
+         "the buffers reused for the container of a second key and decoded again, then zeroised - with the known-key oracle "
+         "and every deterministic encoder re-applied to the decoded objects after each step and the untouched key finally "
+         "used; every encoder's returned slice and the byte arguments of the password-taking encoders are overwritten and "
+         "used a second time; c14.tiers: a cut through every container whose bytes come from tier-dispatched code (SM2 "
+         "enveloped key and CSRResponse, CFCA blob and escrow key, PBES2 with SM4-ECB/CBC/GCM, ShangMi PBES, legacy PEM SM4-CBC, plain "
+         "containers) x key kinds, plus PrivateKeyInfos with an attributes field of 128 consecutive lengths (all block "
+         "counts modulo 8 and all byte tails) in both directions against the reference, plus alteration sweeps, executed in "
+         "ten dispatch configurations with every library-written container compared across them; distinct = distinct class keys (configuration | container / algorithm choice / key shape / "
          "password kind, for alteration sweeps: container / DER element / outcome)",
     jobs=both("c14.plain", _CFG + ["ia32"], shards=(2, 8), floor=100)
     + both("c14.pbes", _CFG + ["ia32"], shards=(4, 16), floor=1000)
@@ -18,7 +30,12 @@ PLAN = dict(
     + both("c14.wrap", _CFG, shards=(2, 8), floor=50)
     + both("c14.tamper", _CFG, shards=(2, 8), floor=20)
     + both("c14.range", _CFG + ["ia32"], shards=(1, 4), floor=20)
-    + both("c14.interop", _CFG, shards=(1, 1), floor=10),
+    + both("c14.interop", _CFG, shards=(1, 1), floor=10)
+    # the caller's buffers (container, password, returned slices) overwritten / reused after every decoder and encoder
+    + both("c14.alias", ["avx2", "purego"], shards=(2, 8), floor=100)
+    # every implementation tier of SM4 (avx2 / avx / sse / aesni1 / noclmul / noaes / purego), SM3 (+ scalar) and of the
+    # SM2 / SM9 arithmetic (nobmi2 / noadx) behind the containers, on a cheap cut through all of them
+    + both("c14.tiers", _TIERS, shards=(1, 2), floor=1000),
     assumptions=[
         "the reference models in harness/ref/pbes (PBES1/PBES2/PBKDF2/legacy PEM/CFCA/SM4 modes over ref/sm3, ref/sm4 and the "
         "standard library; validated against RFC 6070 / RFC 7914 vectors and 20 containers written by OpenSSL 3.5) and "
@@ -34,7 +51,8 @@ CLAIM = dict(
     text="Runtime monitoring of every key container of the library: each SM2/ecdh/ECDSA/RSA/SM9 key, built from a scalar the "
          "generator knows (edge and leading/trailing-zero shapes), is written with every offered container and option "
          "(SEC1, PKCS#8, PKIX, PKCS#1, SM9 raw/compressed/ASN.1/PEM, PKCS#8 under 12 ciphers x 10 KDF choices + ShangMi PBES + 6 PBES1 "
-         "schemes x salt sizes x work factors x password kinds, 6 legacy PEM ciphers, SM2 enveloped key, CFCA blob), decoded by every "
+         "schemes x salt sizes x work factors x password kinds, 6 legacy PEM ciphers, SM2 enveloped key also inside a GM/T 0092 "
+         "CSRResponse, CFCA blob; the decode-only CFCA escrow key is written by the reference in its three textual forms), decoded by every "
          "decoder and compared by Equal, scalar bytes and an independently computed public point; encrypted containers are also "
          "opened by an independent reference implementation and reference-written containers by the library; wrong passwords and "
          "wrong unwrapping keys must never return a key (nor panic); every single-byte substitution of GCM-protected PKCS#8, SM2 "
@@ -43,10 +61,20 @@ CLAIM = dict(
          "pkcs.PBES2Params, returned KDFParameters) writes or opens several containers in a row with different keys and passwords, "
          "each container judged as if written by a fresh object and against the other passwords of its history; "
          "scalars 0, n-1 (SM2), n, n+1, all-ones, negative (SM9 INTEGER) placed in valid structures by the harness' encoder must "
-         "be refused by every decoder, each next to a valid control. Exploration over the listed product, in the avx2, noaes and "
-         "purego configurations, with container bytes compared across configurations.",
+         "be refused by every decoder, each next to a valid control; every self-describing container, also with trailing octets, "
+         "offered to all 21 decoders gives an error or the same key. Input-buffer independence: for every decoder of every "
+         "container and key kind (79 decoder x form pairs, all PBES schemes and PEM ciphers in rotation, SM2 enveloped key, "
+         "CSRResponse, CFCA blob, CFCA escrow key) the decoded key is re-examined (known-key oracle, Equal, every deterministic encoder) after the "
+         "caller reused its container / password buffers for another key and after it zeroised them, a key never touched before "
+         "the wipe is examined and used (sign / agree / derive user key / unwrap) afterwards, slices returned by encoders, by "
+         "DecryptPEMBlock and the KDFParameters are overwritten resp. re-derived, and encoder arguments are overwritten and reused. "
+         "Exploration over the listed product in the avx2, noaes and purego configurations (plain, pbes, range also as a 32-bit "
+         "build); the tier-dispatched code behind the containers (SM4 in avx2 / avx / sse / aesni1 / noclmul / noaes / purego, SM3 "
+         "incl. scalar, SM2 and SM9 arithmetic without BMI2 / ADX) is executed on a cut through all SM4-encrypting containers at "
+         "every block count modulo 8, with container bytes compared across all configurations.",
     design_ref="DESIGN.md 6 (C14)",
     note="trusted: harness/ref/pbes, ref/ec, ref/sm3, ref/sm4, Go standard library crypto and encoding/asn1, x/crypto scrypt, "
          "OpenSSL 3.5 vectors; PBES1-MD2/RC2 only self-consistent; passwords beyond the listed kinds are sampled",
-    technique="round-trip oracle with known keys + differential reference decoder/encoder + accept-set monitor for negatives",
+    technique="round-trip oracle with known keys (re-applied along caller histories that overwrite and reuse buffers) + "
+              "differential reference decoder/encoder + accept-set monitor for negatives + cross-configuration transcript",
 )
